@@ -98,6 +98,15 @@ Proof.
   exact (C11_getter_sound_repaired p Hwf Hg Hf).
 Qed.
 
+Theorem C11_case_sound_current :
+  forall p sw cs b, wf p -> no_fn_stmt p ->
+    sub_stmts (SSwitch sw cs) (p_body p) -> prog_enters p sw -> case_in b cs ->
+    any_stops (analyze current p) b = true -> ~ exec_l b Normal.
+Proof.
+  intros p sw cs b Hwf Hn Hsub Hent Hc Hs. rewrite (analyze_current_repaired p Hn) in Hs.
+  exact (C11_case_sound_repaired p sw cs b Hwf Hsub Hent Hc Hs).
+Qed.
+
 (* ------------------------------------------------------------------ *)
 (* the known finding (class C): without the side condition all three statements fail for the current code *)
 (* function f() { if (v1) () => { throw 1; }; else () => { throw 1; }; v3(); } *)
@@ -139,6 +148,7 @@ Qed.
 Print Assumptions analyze_current_repaired.
 Print Assumptions C10_sound_current.
 Print Assumptions C11_getter_sound_current.
+Print Assumptions C11_case_sound_current.
 Print Assumptions C10_known_class_C.
 Print Assumptions C11_getter_known_class_C.
 Print Assumptions C11_case_known_class_C.
